@@ -75,6 +75,15 @@ CHECKS = {
         design_ref="DESIGN.md 5 C11",
         technique="TLA+ spec + TLC MC with restart/activate actions + TLC trace validation of construction-time callbacks",
     ),
+    "C13": dict(
+        category="model_checking",
+        text=("All calling styles are mapped to the one ExtCall action of the spec, so histories mixing send / event methods / items of events "
+              "and allowed_events / bind_events_to / MachineMixin triggers must all be behaviours of the same model; allowed_events and "
+              "events are compared after every call; unknown names (every attribute name from dir(sm) at run time, state ids, dunders, odd "
+              "strings) must end in the no-candidate outcome with the whole projection unchanged, and a spy detects silent invocations."),
+        design_ref="DESIGN.md 5 C13",
+        technique="TLA+ spec (single ExtCall action) + TLC MC + TLC trace validation over all calling styles and run-time attribute names",
+    ),
     "C14": dict(
         category="model_checking",
         text=("Result rule (MkRes, Deliver) in the spec; real callbacks return unique objects so the recorder classifies an event's result by "
